@@ -1,13 +1,13 @@
 import AFProofs.Lemmas.DictJson
 
-/-! The skeleton (`erase`) of the rich composition commutes with renaming and with the reload names;
+/-! The skeleton (`pnErase`) of the rich composition commutes with renaming and with the reload names;
 the instance does not depend on operand names; repeated round trips (C08). -/
 
 namespace AF
 
 variable {V : Type}
 
-/-! ### erase commutes with renaming -/
+/-! ### pnErase commutes with renaming -/
 
 theorem arithAttrs_rename (σ : Nat → Nat) (ln rn : String) (a b : Node V) :
     arithAttrs ln rn (renameIds σ a) (renameIds σ b) = renameAttrs σ (arithAttrs ln rn a b) := by
@@ -15,63 +15,63 @@ theorem arithAttrs_rename (σ : Nat → Nat) (ln rn : String) (a b : Node V) :
   split <;> simp [renameAttrs]
 
 mutual
-theorem erase_rename (sig : String → List String) (σ : Nat → Nat) : ∀ (n : PN V),
-    erase sig (renamePN σ n) = renameIds σ (erase sig n)
-  | .prior _ _ => by simp [renamePN, erase, renameIds]
-  | .lit s => by cases s <;> simp [renamePN, erase, renameIds]
-  | .model _ attrs _ => by simp [renamePN, erase, renameIds, eraseAttrs_rename sig σ attrs]
-  | .inst _ _ => by simp [renamePN, erase, renameIds]
-  | .coll _ attrs _ => by simp [renamePN, erase, renameIds, eraseAttrs_rename sig σ attrs]
-  | .tuple attrs => by simp [renamePN, erase, renameIds, eraseAttrs_rename sig σ attrs]
+theorem pnErase_rename (sig : String → List String) (σ : Nat → Nat) : ∀ (n : PN V),
+    pnErase sig (renamePN σ n) = renameIds σ (pnErase sig n)
+  | .prior _ _ => by simp [renamePN, pnErase, renameIds]
+  | .lit s => by cases s <;> simp [renamePN, pnErase, renameIds]
+  | .model _ attrs _ => by simp [renamePN, pnErase, renameIds, pnEraseAttrs_rename sig σ attrs]
+  | .inst _ _ => by simp [renamePN, pnErase, renameIds]
+  | .coll _ attrs _ => by simp [renamePN, pnErase, renameIds, pnEraseAttrs_rename sig σ attrs]
+  | .tuple attrs => by simp [renamePN, pnErase, renameIds, pnEraseAttrs_rename sig σ attrs]
   | .arith _ ln rn l r => by
-      simp only [renamePN, erase, renameIds, erase_rename sig σ l, erase_rename sig σ r, arithAttrs_rename]
-  | .both _ _ => by simp [renamePN, erase, renameIds]
-  | .modif _ _ x => by simp [renamePN, erase, renameIds, renameAttrs, erase_rename sig σ x]
-  | .array _ attrs => by simp [renamePN, erase, renameIds, eraseAttrs_rename sig σ attrs]
-  | .list _ _ => by simp [renamePN, erase, renameIds]
-theorem eraseAttrs_rename (sig : String → List String) (σ : Nat → Nat) : ∀ (attrs : List (String × PN V)),
-    eraseAttrs sig (renamePNAttrs σ attrs) = renameAttrs σ (eraseAttrs sig attrs)
-  | [] => by simp [renamePNAttrs, eraseAttrs, renameAttrs]
+      simp only [renamePN, pnErase, renameIds, pnErase_rename sig σ l, pnErase_rename sig σ r, arithAttrs_rename]
+  | .both _ _ => by simp [renamePN, pnErase, renameIds]
+  | .modif _ _ x => by simp [renamePN, pnErase, renameIds, renameAttrs, pnErase_rename sig σ x]
+  | .array _ attrs => by simp [renamePN, pnErase, renameIds, pnEraseAttrs_rename sig σ attrs]
+  | .list _ _ => by simp [renamePN, pnErase, renameIds]
+theorem pnEraseAttrs_rename (sig : String → List String) (σ : Nat → Nat) : ∀ (attrs : List (String × PN V)),
+    pnEraseAttrs sig (renamePNAttrs σ attrs) = renameAttrs σ (pnEraseAttrs sig attrs)
+  | [] => by simp [renamePNAttrs, pnEraseAttrs, renameAttrs]
   | (k, n) :: rest => by
-    simp [renamePNAttrs, eraseAttrs, renameAttrs, erase_rename sig σ n, eraseAttrs_rename sig σ rest]
+    simp [renamePNAttrs, pnEraseAttrs, renameAttrs, pnErase_rename sig σ n, pnEraseAttrs_rename sig σ rest]
 end
 
-/-! ### erase commutes with the reload names -/
+/-! ### pnErase commutes with the reload names -/
 
 theorem samePrior_erase (sig : String → List String) (a b : PN V) :
-    samePrior (erase sig a) (erase sig b) = samePN a b := by
-  cases a <;> cases b <;> simp [erase, samePrior, samePN] <;>
-    (first | (rename_i s; cases s <;> simp [erase]) | (rename_i s _ _; cases s <;> simp [erase]) | skip)
+    samePrior (pnErase sig a) (pnErase sig b) = samePN a b := by
+  cases a <;> cases b <;> simp [pnErase, samePrior, samePN] <;>
+    (first | (rename_i s; cases s <;> simp [pnErase]) | (rename_i s _ _; cases s <;> simp [pnErase]) | skip)
 
 theorem arithAttrs_reload (sig : String → List String) (a b : PN V) :
-    arithAttrs (reloadLeftName a b) "right_" (erase sig a) (erase sig b) =
-      operandAttrs (erase sig a) (erase sig b) := by
+    arithAttrs (reloadLeftName a b) "right_" (pnErase sig a) (pnErase sig b) =
+      operandAttrs (pnErase sig a) (pnErase sig b) := by
   unfold arithAttrs reloadLeftName operandAttrs
   rw [samePrior_erase]
   cases samePN a b <;> simp
 
 mutual
-theorem erase_canon (sig : String → List String) (dflt : String → List (String × Scal V)) : ∀ (n : PN V),
-    erase sig (canonPN dflt n) = canonNames (erase sig n)
-  | .prior _ _ => by simp [canonPN, erase, canonNames]
-  | .lit s => by cases s <;> simp [canonPN, erase, canonNames]
-  | .model _ attrs _ => by simp [canonPN, erase, canonNames, eraseAttrs_canon sig dflt attrs]
-  | .inst _ _ => by simp [canonPN, erase, canonNames]
-  | .coll _ attrs _ => by simp [canonPN, erase, canonNames, eraseAttrs_canon sig dflt attrs]
-  | .tuple attrs => by simp [canonPN, erase, canonNames, eraseAttrs_canon sig dflt attrs]
+theorem pnErase_canon (sig : String → List String) (dflt : String → List (String × Scal V)) : ∀ (n : PN V),
+    pnErase sig (canonPN dflt n) = canonNames (pnErase sig n)
+  | .prior _ _ => by simp [canonPN, pnErase, canonNames]
+  | .lit s => by cases s <;> simp [canonPN, pnErase, canonNames]
+  | .model _ attrs _ => by simp [canonPN, pnErase, canonNames, pnEraseAttrs_canon sig dflt attrs]
+  | .inst _ _ => by simp [canonPN, pnErase, canonNames]
+  | .coll _ attrs _ => by simp [canonPN, pnErase, canonNames, pnEraseAttrs_canon sig dflt attrs]
+  | .tuple attrs => by simp [canonPN, pnErase, canonNames, pnEraseAttrs_canon sig dflt attrs]
   | .arith _ _ _ l r => by
-      simp only [canonPN, erase, canonNames]
-      rw [arithAttrs_reload, erase_canon sig dflt l, erase_canon sig dflt r]
-  | .both _ _ => by simp [canonPN, erase, canonNames]
-  | .modif _ _ x => by simp [canonPN, erase, canonNames, erase_canon sig dflt x]
-  | .array _ attrs => by simp [canonPN, erase, canonNames, eraseAttrs_canon sig dflt attrs]
-  | .list _ _ => by simp [canonPN, erase, canonNames]
-theorem eraseAttrs_canon (sig : String → List String) (dflt : String → List (String × Scal V)) :
+      simp only [canonPN, pnErase, canonNames]
+      rw [arithAttrs_reload, pnErase_canon sig dflt l, pnErase_canon sig dflt r]
+  | .both _ _ => by simp [canonPN, pnErase, canonNames]
+  | .modif _ _ x => by simp [canonPN, pnErase, canonNames, pnErase_canon sig dflt x]
+  | .array _ attrs => by simp [canonPN, pnErase, canonNames, pnEraseAttrs_canon sig dflt attrs]
+  | .list _ _ => by simp [canonPN, pnErase, canonNames]
+theorem pnEraseAttrs_canon (sig : String → List String) (dflt : String → List (String × Scal V)) :
     ∀ (attrs : List (String × PN V)),
-    eraseAttrs sig (canonPNAttrs dflt attrs) = canonNamesAttrs (eraseAttrs sig attrs)
-  | [] => by simp [canonPNAttrs, eraseAttrs, canonNamesAttrs]
+    pnEraseAttrs sig (canonPNAttrs dflt attrs) = canonNamesAttrs (pnEraseAttrs sig attrs)
+  | [] => by simp [canonPNAttrs, pnEraseAttrs, canonNamesAttrs]
   | (k, n) :: rest => by
-    simp [canonPNAttrs, eraseAttrs, canonNamesAttrs, erase_canon sig dflt n, eraseAttrs_canon sig dflt rest]
+    simp [canonPNAttrs, pnEraseAttrs, canonNamesAttrs, pnErase_canon sig dflt n, pnEraseAttrs_canon sig dflt rest]
 end
 
 /-! ### the instance does not depend on the operand names -/
@@ -136,37 +136,37 @@ end
 
 mutual
 theorem walk_erase_sub (sig : String → List String) : ∀ (n : PN V) (x : Path × Nat),
-    x ∈ walk (erase sig n) → x.2 ∈ pnLoadOrder n
+    x ∈ walk (pnErase sig n) → x.2 ∈ pnLoadOrder n
   | .prior id _, x, h => by
-      simp only [erase, walk, List.mem_singleton] at h
+      simp only [pnErase, walk, List.mem_singleton] at h
       simp [pnLoadOrder, h]
-  | .lit s, x, h => by cases s <;> simp [erase, walk] at h
+  | .lit s, x, h => by cases s <;> simp [pnErase, walk] at h
   | .model _ attrs _, x, h => by
-      simp only [erase, walk] at h
+      simp only [pnErase, walk] at h
       simp only [pnLoadOrder, List.mem_append]
       exact Or.inl (walkAttrs_erase_sub sig attrs x h)
-  | .inst _ _, x, h => by simp [erase, walk] at h
+  | .inst _ _, x, h => by simp [pnErase, walk] at h
   | .coll _ attrs _, x, h => by
-      simp only [erase, walk] at h
+      simp only [pnErase, walk] at h
       simp only [pnLoadOrder, List.mem_append]
       exact Or.inl (walkAttrs_erase_sub sig attrs x h)
   | .tuple attrs, x, h => by
-      simp only [erase, walk] at h
+      simp only [pnErase, walk] at h
       simp only [pnLoadOrder]
       exact walkAttrs_erase_sub sig attrs x h
   | .array _ attrs, x, h => by
-      simp only [erase, walk] at h
+      simp only [pnErase, walk] at h
       simp only [pnLoadOrder]
       exact walkAttrs_erase_sub sig attrs x h
-  | .both _ _, x, h => by simp [erase, walk] at h
-  | .list _ _, x, h => by simp [erase, walk] at h
+  | .both _ _, x, h => by simp [pnErase, walk] at h
+  | .list _ _, x, h => by simp [pnErase, walk] at h
   | .modif _ name y, x, h => by
-      simp only [erase, walk, walkAttrs, List.append_nil, List.mem_map] at h
+      simp only [pnErase, walk, walkAttrs, List.append_nil, List.mem_map] at h
       obtain ⟨z, hz, rfl⟩ := h
       simp only [pnLoadOrder]
       exact walk_erase_sub sig y z hz
   | .arith _ ln rn l r, x, h => by
-      simp only [erase, walk] at h
+      simp only [pnErase, walk] at h
       simp only [pnLoadOrder, List.mem_append]
       unfold arithAttrs at h
       split at h
@@ -178,10 +178,10 @@ theorem walk_erase_sub (sig : String → List String) : ∀ (n : PN V) (x : Path
         · exact Or.inl (walk_erase_sub sig l z hz)
         · exact Or.inr (walk_erase_sub sig r z hz)
 theorem walkAttrs_erase_sub (sig : String → List String) : ∀ (attrs : List (String × PN V)) (x : Path × Nat),
-    x ∈ walkAttrs (eraseAttrs sig attrs) → x.2 ∈ pnLoadOrderAttrs attrs
-  | [], x, h => by simp [eraseAttrs, walkAttrs] at h
+    x ∈ walkAttrs (pnEraseAttrs sig attrs) → x.2 ∈ pnLoadOrderAttrs attrs
+  | [], x, h => by simp [pnEraseAttrs, walkAttrs] at h
   | (k, n) :: rest, x, h => by
-    simp only [eraseAttrs, walkAttrs, List.mem_append, List.mem_map] at h
+    simp only [pnEraseAttrs, walkAttrs, List.mem_append, List.mem_map] at h
     simp only [pnLoadOrderAttrs, List.mem_append]
     rcases h with ⟨z, hz, rfl⟩ | h
     · exact Or.inl (walk_erase_sub sig n z hz)
@@ -193,9 +193,9 @@ end
 theorem operandVal_reload [Inhabited V] (ops : Ops V) (sig : String → List String)
     (dflt : String → List (String × Scal V)) (σ : Nat → Nat) (ρ ρ' : Nat → Inst V)
     (h : ∀ i, ρ' (σ i) = ρ i) (n : PN V) :
-    operandVal ops ρ' (erase sig (renamePN σ (canonPN dflt n))) = operandVal ops ρ (erase sig n) := by
+    operandVal ops ρ' (pnErase sig (renamePN σ (canonPN dflt n))) = operandVal ops ρ (pnErase sig n) := by
   unfold operandVal
-  rw [erase_rename, erase_canon, instW_rename]
+  rw [pnErase_rename, pnErase_canon, instW_rename]
   have : (fun i => ρ' (σ i)) = ρ := funext h
   rw [this, instW_canonNames]
 
